@@ -896,10 +896,10 @@ impl Indexable for ast::SimpleValue {
             }
             ast::SimpleValue::List(list) => {
                 // index every element, not only the ones up to the first with a known type
-                let value_types: Vec<(TextRange, Type)> = list
+                let value_types: Vec<Type> = list
                     .value_list()?
                     .values()
-                    .filter_map(|value| Some((value.syntax().text_range(), value.index(ctx)?)))
+                    .filter_map(|value| value.index(ctx))
                     .collect();
                 // `[a, b]<T>` and `[]<T>` spell the element type out
                 let annotated_typ = match list.r#type() {
@@ -908,7 +908,7 @@ impl Indexable for ast::SimpleValue {
                 };
                 let is_annotated = annotated_typ.is_some();
                 let mut elm_typ = annotated_typ;
-                for (range, typ) in value_types {
+                for typ in value_types {
                     let Some(cur_typ) = elm_typ.take() else {
                         elm_typ = Some(typ);
                         continue;
@@ -924,9 +924,10 @@ impl Indexable for ast::SimpleValue {
                     {
                         common_typ
                     } else {
+                        // (any of the two may be the odd one out: the literal as a whole is at fault)
                         ctx.error(
-                            range,
-                            format!("list element of type '{typ}' is incompatible with type '{cur_typ}'"),
+                            list.syntax().text_range(),
+                            format!("list elements of type '{cur_typ}' and '{typ}' are incompatible"),
                         );
                         cur_typ
                     });
